@@ -13,3 +13,4 @@ import Dasp.Props.C17
 import Dasp.Props.C11
 import Dasp.Props.C19
 import Dasp.Props.C15
+import Dasp.Props.C10
